@@ -461,6 +461,15 @@ func init() {
 	Register(&Family{
 		Name: "inputs", Cfgs: []drv.Cfg{withRoll(cfgBoth, 700), withRoll(withVer(cfgBoth, 1), 700)}, Letters: inputLetters(false),
 		Depth: map[string]int{"quick": 3, "thorough": 4}, Obs: drv.ObsAll &^ drv.ObsTrim, KeySet: []int{2, 3, 11, 9, 10, 0},
+		// the largest body the format accepts, second in a batch and alone, followed by one more
+		// publish and a reopen (only from the initial state: every read of it copies 64 MiB)
+		Leaves: func(w *drv.World) []string {
+			if len(w.Hist) > 0 {
+				return nil
+			}
+			return []string{"X:P:0/1/u,1/1/M;P:0/1/u;R:", "X:P:0/1/M;P:0/1/u;RX:all", "X:P:0/1/u;P:0/1/u,1/1/M;P:0/1/u;R:"}
+		},
+		LeafObs: drv.ObsWalk | drv.ObsNext | drv.ObsStat,
 	})
 	Register(&Family{
 		Name: "inputs-nt", Cfgs: []drv.Cfg{withRoll(cfgKeys, 700), withRoll(withVer(cfgNone, 1), 400)}, Letters: inputLetters(true),
@@ -498,6 +507,12 @@ func init() {
 	})
 	Register(&Family{
 		Name: "kv", Cfgs: []drv.Cfg{cfgBoth, cfgNone, withAS(cfgKeys)}, Letters: kvLetters(2),
+		Depth: map[string]int{"quick": 4, "thorough": 5}, Obs: drv.ObsWalk | drv.ObsNext | drv.ObsKey, KeySet: []int{0, 1, 2},
+	})
+	// one large head segment: messages are deleted from its middle, it is published to again and
+	// compacted again (with the 60-byte rollover a head never holds more than a batch)
+	Register(&Family{
+		Name: "kv-head", Cfgs: []drv.Cfg{withRoll(cfgBoth, 1<<20)}, Letters: kvLetters(2), Prefix: []string{"P:1/1/u", "P:0/1/u", "P:0/1/u"},
 		Depth: map[string]int{"quick": 4, "thorough": 5}, Obs: drv.ObsWalk | drv.ObsNext | drv.ObsKey, KeySet: []int{0, 1, 2},
 	})
 	// the same from a non-initial state: one message published, index files removed, reopened
